@@ -112,6 +112,6 @@ func Parse
     decreases len(stream.rem)
 
 property C17: lemma substr_join, lemma blk_shift, trim, partition, readLine, ParseOne, Parse
-property C18: trim, partition, readLine, ParseOne, Parse
+property C18: nosharedwrites, trim, partition, readLine, ParseOne, Parse
 
 @*/
